@@ -142,7 +142,9 @@ class Printer(PrinterBase):
         return f"{var}: {typ} = {value}"
 
     def make_constant(self, like, value):
-        return f"{value}"
+        s = str(value)
+        # the emitted source imports math only: spell the special values through it
+        return {"inf": "math.inf", "-inf": "-math.inf", "nan": "math.nan"}.get(s, s)
 
     def show_value(self, var):
         return f'print("{var}=", {var})'
